@@ -196,7 +196,9 @@ def body_excitation(case):
         q = sv.predict(x)
         v_code = excitation_value(b, np.maximum(q, 0))
         t_opt, xw = excitation_opt(sv, b)
-        check(v_code <= t_opt + etol, f"excitation:not-optimal:{cls}",
+        # gaps below 0.1 excitation units are the inaccuracy recorded as known finding C07-K2; larger ones are a different matter
+        sev = "minor" if v_code <= t_opt + 0.1 else "major"
+        check(v_code <= t_opt + etol, f"excitation:not-optimal-{sev}:{cls}",
               f"largest excitation difference of the returned intensities {v_code:.5g} exceeds the optimum {t_opt:.5g} by more than {etol} "
               f"(kind={r['kind']}, {'/'.join(sv.labels())})", observed=dict(b=b.tolist(), x=x.tolist(), q=q.tolist()))
         if cls == "in-gamut":
